@@ -39,7 +39,9 @@ static FWire c04(Reader& r,FReader& f) {
     try {
     stage = 1;
     const SymMatrix HM = HeadMat(geo);
-    stage = 2; const Matrix SM = DipSourceMat(geo,dipoles,"");
+    // the direct path is built as the tools build it (om_assemble -DSM: explicit Integrator(3,10,0.001)); the adjoint classes
+    // call the 3-argument overload with its own default integrator: the two must be the same integrator
+    stage = 2; const Matrix SM = DipSourceMat(geo,dipoles,Integrator(3,10,0.001),"");
     stage = 3; const SparseMatrix H2E = Head2EEGMat(geo,electrodes);
     stage = 4; const Matrix H2M = Head2MEGMat(geo,squids);
     stage = 5; const Matrix S2M = DipSource2MEGMat(dipoles,squids);
